@@ -333,7 +333,7 @@ const LONG: Duration = Duration::from_secs(10);
 // ---------------------------------------------------------------------------------------------
 // det cases: the frozen world
 
-type CallFut = Pin<Box<dyn Future<Output = Result<u32, CallError<Ask>>>>>;
+type CallFut = Pin<Box<dyn Future<Output = Result<u32, CallError<Ask>>> + Send>>;
 
 enum Slot {
     Test {
@@ -1095,16 +1095,709 @@ fn exec_det(case: &Case) -> Exec {
 }
 
 // ---------------------------------------------------------------------------------------------
-// conc cases (filled in below)
+// conc cases: uncontrolled schedules, judged as histories
 
-struct ConcShared {}
-
-impl ConcShared {
-    async fn in_handler(&self, _actor: u32, _msg: u32) {}
+/// widens the race windows inside handlers (deterministic per (actor, message))
+struct ConcShared {
+    salt: u64,
 }
 
-fn judge_hist(_w: &[&str]) -> String {
-    "bad-op".into()
+impl ConcShared {
+    async fn in_handler(&self, actor: u32, msg: u32) {
+        let mut h = Rng::new(self.salt ^ ((actor as u64) << 32) ^ msg as u64);
+        let x = h.next();
+        for _ in 0..(x % 3) {
+            YieldNow(false).await;
+        }
+        if x % 11 == 0 {
+            thread::yield_now();
+        }
+    }
+}
+
+#[derive(Clone, Debug)]
+struct ConcSpec {
+    workers: usize,
+    seed: u64,
+    actors: u32,
+    senders: u32,
+    msgs: u32,
+    sup: bool,
+    churn: bool,
+}
+
+impl ConcSpec {
+    fn line(&self) -> String {
+        format!(
+            "conc {} {} {} {} {} {} {}",
+            self.workers, self.seed, self.actors, self.senders, self.msgs, self.sup as u8, self.churn as u8
+        )
+    }
+
+    fn parse(w: &[&str]) -> Option<ConcSpec> {
+        if w.len() != 8 || w[0] != "conc" {
+            return None;
+        }
+        Some(ConcSpec {
+            workers: w[1].parse().ok().filter(|x| (1..=8).contains(x))?,
+            seed: w[2].parse().ok()?,
+            actors: w[3].parse().ok().filter(|x| (1..=16).contains(x))?,
+            senders: w[4].parse().ok().filter(|x| (1..=8).contains(x))?,
+            msgs: w[5].parse().ok().filter(|x| *x <= 2000)?,
+            sup: w[6] == "1",
+            churn: w[7] == "1",
+        })
+    }
+}
+
+/// what one sender thread did: (message id, direct target or None for a group, accepted?)
+struct SenderLog {
+    sends: Vec<(u32, Option<u32>, bool)>,
+    /// calls: id, direct target, future (None once resolved), result letter
+    calls: Vec<(u32, Option<u32>, Option<CallFut>, char)>,
+}
+
+fn call_letter(r: &Result<u32, CallError<Ask>>) -> char {
+    match r {
+        Ok(_) => 'r',
+        Err(CallError::NoReply) => 'n',
+        Err(CallError::Full(_)) => 'f',
+        Err(CallError::Closed(_)) => 'c',
+    }
+}
+
+fn join_ids(v: &[u32]) -> String {
+    if v.is_empty() { "-".into() } else { v.iter().map(|x| x.to_string()).collect::<Vec<_>>().join(",") }
+}
+
+/// run one concurrent scenario on a real cluster; returns the `hist` lines
+fn run_conc(spec: &ConcSpec) -> Vec<String> {
+    let mut rng = Rng::new(spec.seed);
+    let cluster = make_cluster(spec.workers);
+    let log = Arc::new(Log::default());
+    let shared = Arc::new(ConcShared { salt: spec.seed });
+    let names = ["a", "b", "c"];
+    let mut hist: Vec<String> = vec![];
+
+    // supervisor
+    let children = Arc::new(Mutex::new(vec![]));
+    let sup = if spec.sup {
+        let (l, ch) = (log.clone(), children.clone());
+        let r = block_on_timeout(
+            cluster
+                .spawn(move || Sup { id: 1000, log: l, children: ch, stop_on_start: false }, ())
+                .with_capacity(NonZeroUsize::new(4096).unwrap())
+                .into_future(),
+            LONG,
+        );
+        match r {
+            Some(Ok(x)) => Some(x),
+            _ => None,
+        }
+    } else {
+        None
+    };
+
+    // actors
+    struct A {
+        id: u32,
+        name: Option<String>,
+        hooks: [bool; 4],
+        supervised: bool,
+        mailbox: Option<Mailbox<TestActor>>,
+        handle: Option<ActorHandle<u32>>,
+        fate: char, // X exited, F start failed, L unknown, T name taken
+        exit: Option<ActorExit<u32>>,
+    }
+    let mut actors: Vec<A> = vec![];
+    let mut used_keys: BTreeSet<(Option<String>, usize)> = BTreeSet::new();
+    for i in 0..spec.actors {
+        let id = i + 1;
+        let name = if rng.chance(1, 3) { Some(rng.pick(&names).to_string()) } else { None };
+        let cap = rng.range(1, 6) as usize;
+        let hooks = if rng.chance(1, 10) {
+            let k = rng.below(4) as usize;
+            [k != 0, k != 1, k != 2, k != 3]
+        } else {
+            [true; 4]
+        };
+        let supervised = sup.is_some() && rng.chance(1, 2) && used_keys.insert((name.clone(), cap));
+        let (l, x) = (log.clone(), shared.clone());
+        let mut sp = cluster
+            .spawn(move || TestActor { id, hooks, log: l, extra: Some(x) }, ())
+            .with_capacity(NonZeroUsize::new(cap).unwrap());
+        if let Some(n) = &name {
+            sp = sp.with_name(n.clone());
+        }
+        if supervised {
+            children.lock().unwrap().push(((name.clone(), cap), id));
+            sp = sp.with_supervisor(&sup.as_ref().unwrap().0);
+        }
+        let r = block_on_timeout(sp.into_future(), LONG);
+        let mut a = A { id, name, hooks, supervised, mailbox: None, handle: None, fate: 'L', exit: None };
+        match r {
+            Some(Ok((m, h))) => {
+                a.mailbox = Some(m);
+                a.handle = Some(h);
+            }
+            Some(Err(SpawnError::Start(_))) => a.fate = 'F',
+            Some(Err(SpawnError::NameTaken(_))) => a.fate = 'T',
+            _ => a.fate = '?',
+        }
+        actors.push(a);
+    }
+    let boxes: Vec<(u32, Mailbox<TestActor>)> =
+        actors.iter().filter_map(|a| a.mailbox.clone().map(|m| (a.id, m))).collect();
+
+    // groups over random subsets
+    let gm: ProcessGroup<Msg> = ProcessGroup::new();
+    let gc: ProcessGroup<Call<Ask, u32>> = ProcessGroup::new();
+    let mut memberships_m = vec![];
+    let mut memberships_c = vec![];
+    for (_, m) in &boxes {
+        if rng.chance(1, 2) {
+            memberships_m.push(gm.join(m.broker()));
+        }
+        if rng.chance(1, 2) {
+            memberships_c.push(gc.join(m.broker()));
+        }
+    }
+
+    // sender threads
+    let mut threads = vec![];
+    for t in 0..spec.senders {
+        let boxes = boxes.clone();
+        let (gm, gc) = (gm.clone(), gc.clone());
+        let mut r = rng.fork();
+        let msgs = spec.msgs;
+        threads.push(thread::spawn(move || {
+            let mut sl = SenderLog { sends: vec![], calls: vec![] };
+            if boxes.is_empty() {
+                return sl;
+            }
+            for i in 0..msgs {
+                let id = (t + 1) * 100_000 + i;
+                let (a, mb) = &boxes[r.below(boxes.len() as u64) as usize];
+                match r.below(100) {
+                    0..=64 => {
+                        let kind = match r.below(40) {
+                            0 => b'f',
+                            1 => b's',
+                            2 => b'x',
+                            _ => b'n',
+                        };
+                        let ok = mb.send(Msg { id, kind }).is_ok();
+                        sl.sends.push((id, Some(*a), ok));
+                    }
+                    65..=76 => {
+                        let ok = gm.send(Msg { id, kind: b'n' }).is_ok();
+                        sl.sends.push((id, None, ok));
+                    }
+                    77..=90 => {
+                        let kind = *r.pick(&[b'r', b'r', b'r', b'i', b'q', b'd']);
+                        let m2 = mb.clone();
+                        let mut fut: CallFut = Box::pin(async move { m2.call::<Ask, u32>(Ask { id, kind }).await });
+                        match poll_once(fut.as_mut()) {
+                            Poll::Ready(res) => {
+                                sl.sends.push((id, Some(*a), false));
+                                sl.calls.push((id, Some(*a), None, call_letter(&res)));
+                            }
+                            Poll::Pending => {
+                                sl.sends.push((id, Some(*a), true));
+                                sl.calls.push((id, Some(*a), Some(fut), 'p'));
+                            }
+                        }
+                    }
+                    91..=95 => {
+                        let g2 = gc.clone();
+                        let mut fut: CallFut = Box::pin(async move { g2.call(Ask { id, kind: b'r' }).await });
+                        match poll_once(fut.as_mut()) {
+                            Poll::Ready(res) => {
+                                sl.sends.push((id, None, false));
+                                sl.calls.push((id, None, None, call_letter(&res)));
+                            }
+                            Poll::Pending => {
+                                sl.sends.push((id, None, true));
+                                sl.calls.push((id, None, Some(fut), 'p'));
+                            }
+                        }
+                    }
+                    96..=97 => {
+                        mb.stop();
+                    }
+                    _ => thread::yield_now(),
+                }
+                if r.chance(1, 8) {
+                    thread::yield_now();
+                }
+            }
+            sl
+        }));
+    }
+
+    // name churn: one thread per name spawns short-lived actors under that name, one after the other
+    let mut churn_threads = vec![];
+    if spec.churn {
+        for (k, n) in ["x", "y"].iter().enumerate() {
+            let (cl, l) = (cluster.clone(), log.clone());
+            let rounds = (spec.msgs / 4).clamp(3, 40);
+            churn_threads.push(thread::spawn(move || {
+                let mut taken = 0u32;
+                let mut ids = vec![];
+                for j in 0..rounds {
+                    let id = 2000 + (k as u32) * 500 + j;
+                    let l2 = l.clone();
+                    let r = block_on_timeout(
+                        cl.spawn(move || TestActor { id, hooks: [true; 4], log: l2, extra: None }, ())
+                            .with_name(*n)
+                            .into_future(),
+                        LONG,
+                    );
+                    match r {
+                        Some(Ok((m, h))) => {
+                            ids.push(id);
+                            if cl.lookup::<TestActor, _>(*n).is_none() {
+                                taken += 1000; // registered actor not visible
+                            }
+                            m.send(Msg { id: 3_000_000 + id, kind: b's' }).ok();
+                            if block_on_timeout(h, LONG).is_none() {
+                                taken += 100_000;
+                            }
+                        }
+                        Some(Err(SpawnError::NameTaken(_))) => taken += 1,
+                        _ => taken += 1_000_000,
+                    }
+                }
+                (n.to_string(), taken, ids)
+            }));
+        }
+    }
+
+    let mut slogs: Vec<SenderLog> = threads.into_iter().map(|t| t.join().expect("sender thread")).collect();
+    let churned: Vec<(String, u32, Vec<u32>)> = churn_threads.into_iter().map(|t| t.join().expect("churn thread")).collect();
+
+    // barrier: an actor that answers a call sent after all senders finished was alive all along
+    let mut complete: BTreeSet<u32> = BTreeSet::new();
+    for (a, mb) in &boxes {
+        let id = 9_000_000 + a;
+        let m2 = mb.clone();
+        let mut fut: CallFut = Box::pin(async move { m2.call::<Ask, u32>(Ask { id, kind: b'r' }).await });
+        let end = Instant::now() + LONG;
+        loop {
+            match poll_once(fut.as_mut()) {
+                Poll::Ready(Ok(_)) => {
+                    complete.insert(*a);
+                    break;
+                }
+                Poll::Ready(Err(CallError::Full(_))) => {
+                    // mailbox full of earlier messages: try again with a fresh call
+                    if mb.is_closed() || Instant::now() > end {
+                        break;
+                    }
+                    let m3 = mb.clone();
+                    fut = Box::pin(async move { m3.call::<Ask, u32>(Ask { id, kind: b'r' }).await });
+                    thread::yield_now();
+                }
+                Poll::Ready(Err(_)) => break,
+                Poll::Pending => {
+                    if mb.is_closed() || Instant::now() > end {
+                        break;
+                    }
+                    thread::sleep(Duration::from_micros(50));
+                }
+            }
+        }
+    }
+
+    // stop everything, wait for the exits
+    for (_, mb) in &boxes {
+        mb.stop();
+    }
+    for a in actors.iter_mut() {
+        if let Some(h) = a.handle.take() {
+            match block_on_timeout(h, LONG) {
+                Some(Ok(e)) => {
+                    a.fate = 'X';
+                    a.exit = Some(e);
+                }
+                Some(Err(_)) => a.fate = 'L',
+                None => a.fate = 'H', // stopped but never exited
+            }
+        }
+    }
+    // the supervisor has everything once it saw one exit event per supervised child that exited
+    let mut sup_events: Vec<(u32, u8)> = vec![];
+    if let Some((smb, sh)) = sup {
+        let expected: usize = actors
+            .iter()
+            .filter(|a| a.supervised && a.fate == 'X')
+            .map(|a| 1 + log.of(a.id).contains(&Obs::Hook(1, true)) as usize)
+            .sum();
+        let end = Instant::now() + Duration::from_secs(3);
+        while log.of(1000).len() < expected && Instant::now() < end {
+            thread::sleep(Duration::from_micros(200));
+        }
+        smb.stop();
+        block_on_timeout(sh, LONG);
+        sup_events = log.of(1000).iter().filter_map(|o| if let Obs::Sup(k, c) = o { Some((*c, *k)) } else { None }).collect();
+    }
+    // give dropped reply senders a moment, then look at the calls a last time
+    thread::sleep(Duration::from_millis(5));
+    for sl in slogs.iter_mut() {
+        for c in sl.calls.iter_mut() {
+            if let Some(f) = c.2.as_mut() {
+                if let Poll::Ready(r) = poll_once(f.as_mut()) {
+                    c.3 = call_letter(&r);
+                    c.2 = None;
+                }
+            }
+        }
+    }
+
+    // ---- the history -------------------------------------------------------------------------
+    let mut handled_by: HashMap<u32, u32> = HashMap::new();
+    let mut all_handled: Vec<u32> = vec![];
+    for a in &actors {
+        for m in handled_of(&log.of(a.id)) {
+            handled_by.entry(m).or_insert(a.id);
+            all_handled.push(m);
+        }
+    }
+    for a in &actors {
+        if a.fate == 'T' {
+            continue;
+        }
+        let l = log.of(a.id);
+        let fate = match a.fate {
+            'X' => "X",
+            'F' => "F",
+            _ => "L",
+        };
+        let shown: Vec<String> = l.iter().map(Obs::show).collect();
+        hist.push(format!("hist life {fate} {}", shown.join(" ")).trim_end().to_string());
+        if a.fate == 'H' {
+            hist.push(format!("hist stuck {}", a.id));
+        }
+        if a.fate == 'F' || !a.hooks[0] {
+            continue;
+        }
+        let handled: Vec<u32> = handled_of(&l).into_iter().filter(|m| *m < 9_000_000).collect();
+        // per sender: accepted direct sends to this actor, plus accepted group sends this actor handled
+        let mut per: Vec<String> = vec![];
+        for sl in &slogs {
+            let acc: Vec<u32> = sl
+                .sends
+                .iter()
+                .filter(|s| s.2 && (s.1 == Some(a.id) || (s.1.is_none() && handled_by.get(&s.0) == Some(&a.id))))
+                .map(|s| s.0)
+                .collect();
+            per.push(join_ids(&acc));
+        }
+        let c = if complete.contains(&a.id) { "C" } else { "P" };
+        hist.push(format!("hist fifo {c} {} {}", join_ids(&handled), per.join(";")));
+        // calls addressed to this actor (or routed to it by the call group)
+        let mut cs: Vec<String> = vec![];
+        for sl in &slogs {
+            for c in &sl.calls {
+                if c.1 == Some(a.id) || (c.1.is_none() && handled_by.get(&c.0) == Some(&a.id)) {
+                    cs.push(format!("{}:{}", c.0, c.3));
+                }
+            }
+        }
+        if !cs.is_empty() {
+            hist.push(format!("hist calls {} {} {}", if a.fate == 'X' { "X" } else { "L" }, join_ids(&handled), cs.join(" ")));
+        }
+        if a.supervised {
+            let seen: Vec<u32> = sup_events.iter().filter(|e| e.0 == a.id).map(|e| e.1 as u32).collect();
+            let po = l.contains(&Obs::Hook(1, true)) as u8;
+            let ex = match (&a.exit, a.fate) {
+                (Some(ActorExit::Stopped), _) => "S",
+                (Some(ActorExit::Failed(_)), _) => "E",
+                _ => "N",
+            };
+            hist.push(format!("hist sup {po} {ex} {}", join_ids(&seen)));
+        }
+    }
+    // group calls nobody handled: must have been rejected or be stranded
+    let mut orphan: Vec<String> = vec![];
+    for sl in &slogs {
+        for c in &sl.calls {
+            if c.1.is_none() && !handled_by.contains_key(&c.0) {
+                orphan.push(format!("{}:{}", c.0, c.3));
+            }
+        }
+    }
+    if !orphan.is_empty() {
+        hist.push(format!("hist calls L - {}", orphan.join(" ")));
+    }
+    // a message whose send was rejected is never handled; nothing is handled twice
+    let rejected: Vec<u32> = slogs.iter().flat_map(|sl| sl.sends.iter().filter(|s| !s.2).map(|s| s.0)).collect();
+    let bad: Vec<u32> = rejected.into_iter().filter(|m| handled_by.contains_key(m)).collect();
+    hist.push(format!("hist rejected {}", join_ids(&bad)));
+    hist.push(format!("hist once {}", join_ids(&all_handled)));
+    // names: observed lifetimes never overlap; a name is free again once its holder's handle resolved
+    let mut by_name: BTreeMap<String, Vec<(u64, u64)>> = BTreeMap::new();
+    let mut named: Vec<(String, u32)> = actors.iter().filter_map(|a| a.name.clone().map(|n| (n, a.id))).collect();
+    for (n, _, ids) in &churned {
+        for i in ids {
+            named.push((n.clone(), *i));
+        }
+    }
+    for (n, id) in named {
+        let l = log.of_seq(id);
+        if let Some(st) = l.iter().find(|e| e.0 == Obs::Hook(0, true)).map(|e| e.1) {
+            let en = l.iter().find(|e| matches!(e.0, Obs::Hook(3, _))).map(|e| e.1).unwrap_or(u64::MAX / 2);
+            by_name.entry(n).or_default().push((st, en));
+        }
+    }
+    for (n, ivs) in by_name {
+        let s: Vec<String> = ivs.iter().map(|(a, b)| format!("{a}:{b}")).collect();
+        hist.push(format!("hist names {}", s.join(" ")));
+        let _ = n;
+    }
+    for (_, taken, _) in &churned {
+        hist.push(format!("hist reuse {taken}"));
+    }
+
+    drop(memberships_m);
+    drop(memberships_c);
+    drop(slogs);
+    if block_on_timeout(cluster.join(), LONG).is_none() {
+        hist.push("hist stuck 0".into());
+    }
+    hist
+}
+
+fn parse_obs(t: &str) -> Option<Obs> {
+    let b = t.as_bytes();
+    if b.len() == 3 && b[0] == b'p' && (b[2] == b'+' || b[2] == b'-') {
+        let h = match b[1] {
+            b's' => 0,
+            b'o' => 1,
+            b'r' => 2,
+            b't' => 3,
+            _ => return None,
+        };
+        return Some(Obs::Hook(h, b[2] == b'+'));
+    }
+    if b.first() == Some(&b'h') && b.len() > 1 {
+        return t[1..].parse().ok().map(Obs::Hs);
+    }
+    if b.first() == Some(&b'e') && b.len() > 2 {
+        let ok = match b[b.len() - 1] {
+            b'+' => true,
+            b'-' => false,
+            _ => return None,
+        };
+        return t[1..t.len() - 1].parse().ok().map(|m| Obs::He(m, ok));
+    }
+    None
+}
+
+fn nat_list(s: &str) -> Option<Vec<u64>> {
+    if s == "-" {
+        return Some(vec![]);
+    }
+    s.split(',').map(|x| if x.is_empty() || !x.bytes().all(|b| b.is_ascii_digit()) { None } else { x.parse().ok() }).collect()
+}
+
+/// The Rust acceptor of `hist` lines (the property monitors of conc cases). Returns the verdict and,
+/// for a rejected or F14 line, the monitor signature.
+fn judge(w: &[&str]) -> (String, Option<(&'static str, String)>) {
+    let bad = || ("bad-op".to_string(), None);
+    let verdict = |ok: bool, why: &'static str, sig: &'static str, detail: String| {
+        if ok { ("accept".to_string(), None) } else { (format!("reject {why}"), Some((sig, detail))) }
+    };
+    match w {
+        ["life", fate, toks @ ..] => {
+            let Some(log) = toks.iter().map(|t| parse_obs(t)).collect::<Option<Vec<Obs>>>() else { return bad() };
+            let ok = match (life_run(&log), *fate) {
+                (None, "X" | "F" | "L") => false,
+                (Some(l), "X") => l == Life::Done,
+                (Some(l), "F") => l == Life::DeadStart,
+                (Some(_), "L") => true,
+                _ => return bad(),
+            };
+            verdict(ok, "lifecycle", "C19:conc-lifecycle", w.join(" "))
+        }
+        ["fifo", c, handled, senders] => {
+            let (Some(h), Some(ss)) = (nat_list(handled), senders.split(';').map(nat_list).collect::<Option<Vec<_>>>()) else {
+                return bad();
+            };
+            let complete = match *c {
+                "C" => true,
+                "P" => false,
+                _ => return bad(),
+            };
+            let mut ok = true;
+            let set: BTreeSet<u64> = h.iter().copied().collect();
+            ok &= set.len() == h.len();
+            ok &= h.iter().all(|m| ss.iter().any(|s| s.contains(m)));
+            for acc in &ss {
+                let mine: Vec<u64> = h.iter().copied().filter(|m| acc.contains(m)).collect();
+                ok &= mine.len() <= acc.len() && acc[..mine.len()] == mine[..];
+                ok &= !complete || mine.len() == acc.len();
+            }
+            verdict(ok, "fifo", "C19:conc-fifo", w.join(" "))
+        }
+        ["once", ids] => {
+            let Some(l) = nat_list(ids) else { return bad() };
+            let set: BTreeSet<u64> = l.iter().copied().collect();
+            verdict(set.len() == l.len(), "handled-twice", "C19:conc-handled-twice", w.join(" "))
+        }
+        ["rejected", ids] => {
+            let Some(l) = nat_list(ids) else { return bad() };
+            verdict(l.is_empty(), "rejected-handled", "C19:conc-rejected-handled", w.join(" "))
+        }
+        ["calls", x, handled, cs @ ..] => {
+            let Some(h) = nat_list(handled) else { return bad() };
+            let exited = match *x {
+                "X" => true,
+                "L" => false,
+                _ => return bad(),
+            };
+            let mut ok = true;
+            let mut stranded = vec![];
+            for c in cs {
+                let Some((i, r)) = c.split_once(':') else { return bad() };
+                if i.is_empty() || !i.bytes().all(|b| b.is_ascii_digit()) {
+                    return bad();
+                }
+                let Ok(i) = i.parse::<u64>() else { return bad() };
+                let was = h.contains(&i);
+                match r {
+                    "r" | "n" => ok &= was,
+                    "f" | "c" => ok &= !was,
+                    "p" => {
+                        ok &= !exited || !was;
+                        if exited && !was {
+                            stranded.push(i);
+                        }
+                    }
+                    _ => return bad(),
+                }
+            }
+            if ok && !stranded.is_empty() {
+                return (
+                    "accept".into(),
+                    Some((
+                        "F14:call-stranded-at-exit",
+                        format!("calls {stranded:?} still pending after the actor exited (handled by None): envelopes queued when the receiver was dropped"),
+                    )),
+                );
+            }
+            verdict(ok, "call", "C19:conc-call", w.join(" "))
+        }
+        ["names", ivs @ ..] => {
+            let mut l = vec![];
+            for iv in ivs {
+                let Some((a, b)) = iv.split_once(':') else { return bad() };
+                let ok_num = |s: &str| !s.is_empty() && s.bytes().all(|b| b.is_ascii_digit());
+                if !ok_num(a) || !ok_num(b) {
+                    return bad();
+                }
+                let (Ok(a), Ok(b)) = (a.parse::<u64>(), b.parse::<u64>()) else { return bad() };
+                l.push((a, b));
+            }
+            let mut ok = true;
+            for i in 0..l.len() {
+                for j in i + 1..l.len() {
+                    ok &= l[i].1 < l[j].0 || l[j].1 < l[i].0;
+                }
+            }
+            verdict(ok, "name-overlap", "C19:conc-name-shared", w.join(" "))
+        }
+        ["reuse", n] => {
+            if n.is_empty() || !n.bytes().all(|b| b.is_ascii_digit()) {
+                return bad();
+            }
+            verdict(*n == "0", "name-not-free", "C19:conc-name-not-free", w.join(" "))
+        }
+        ["sup", po, ex, seen] => {
+            let Some(s) = nat_list(seen) else { return bad() };
+            let mut expect: Vec<u64> = vec![];
+            match *po {
+                "1" => expect.push(0),
+                "0" => {}
+                _ => return bad(),
+            }
+            match *ex {
+                "S" => expect.push(1),
+                "E" => expect.push(2),
+                "N" => {}
+                _ => return bad(),
+            }
+            verdict(s == expect, "supervision", "C19:conc-supervision", w.join(" "))
+        }
+        ["stuck", _] => ("reject stuck".into(), Some(("C19:conc-stuck", w.join(" ")))),
+        _ => bad(),
+    }
+}
+
+fn judge_hist(w: &[&str]) -> String {
+    judge(w).0
+}
+
+thread_local! {
+    /// conc cases already executed by the generator in this process (their history is in the case)
+    static RAN: std::cell::RefCell<BTreeSet<String>> = const { std::cell::RefCell::new(BTreeSet::new()) };
+}
+
+fn exec_conc(case: &Case) -> Exec {
+    let mut ex = Exec::new();
+    let fresh = !RAN.with(|r| r.borrow().contains(&case.name));
+    for line in &case.lines {
+        let w: Vec<&str> = line.split_whitespace().collect();
+        match w.first().copied() {
+            Some("conc") => match ConcSpec::parse(&w) {
+                Some(spec) => {
+                    ex.tag(format!("conc:workers={}", spec.workers));
+                    if fresh {
+                        // replay / corpus: run the scenario again on the real code and judge what it does now
+                        for h in run_conc(&spec) {
+                            let hw: Vec<&str> = h.split_whitespace().collect();
+                            if let (_, Some((sig, detail))) = judge(&hw[1..]) {
+                                ex.fail(sig, format!("(re-run) {detail}"));
+                            }
+                        }
+                    }
+                    ex.nontrivial = spec.senders >= 2;
+                    ex.out.push("ran".into());
+                }
+                None => ex.out.push("bad-op".into()),
+            },
+            Some("hist") => {
+                let (v, f) = judge(&w[1..]);
+                ex.tag(format!("hist:{}", w.get(1).copied().unwrap_or("?")));
+                if let Some((sig, detail)) = f {
+                    if sig.starts_with("F14") {
+                        ex.tag("f14-stranded-call");
+                    }
+                    ex.fail(sig, detail);
+                }
+                ex.out.push(v);
+            }
+            _ => ex.out.push("bad-op".into()),
+        }
+    }
+    ex
+}
+
+fn gen_conc(rng: &mut Rng, i: usize, big: bool) -> Case {
+    let spec = ConcSpec {
+        workers: rng.range(1, 4) as usize,
+        seed: rng.next() % 1_000_000_007,
+        actors: rng.range(1, if big { 8 } else { 5 }) as u32,
+        senders: rng.range(1, 4) as u32,
+        msgs: rng.range(5, if big { 400 } else { 80 }) as u32,
+        sup: rng.chance(1, 2),
+        churn: rng.chance(1, 3),
+    };
+    let name = format!("conc-{i}");
+    let mut lines = vec![spec.line()];
+    lines.extend(run_conc(&spec));
+    RAN.with(|r| r.borrow_mut().insert(name.clone()));
+    Case { name, lines }
 }
 
 // ---------------------------------------------------------------------------------------------
@@ -1262,11 +1955,19 @@ fn generate(tier: &str, rng: &mut Rng) -> Vec<Case> {
         let n_ops = rng.range(6, if i % 5 == 0 { 60 } else { 30 }) as usize;
         cases.push(Case { name: format!("det-{i}"), lines: gen_det(rng, n_ops) });
     }
+    let n_conc = if thorough { 1500 } else { 120 };
+    for i in 0..n_conc {
+        cases.push(gen_conc(rng, i, thorough && i % 4 == 0));
+    }
     cases
 }
 
 fn exec(case: &Case) -> Exec {
-    exec_det(case)
+    if case.lines.first().map(|l| l.starts_with("conc ")).unwrap_or(false) {
+        exec_conc(case)
+    } else {
+        exec_det(case)
+    }
 }
 
 fn main() {
